@@ -7,6 +7,7 @@ import (
 	corev1 "k8s.io/api/core/v1"
 	metav1 "k8s.io/apimachinery/pkg/apis/meta/v1"
 	"encoding/json"
+	"fmt"
 	"math/rand/v2"
 	"time"
 
@@ -35,6 +36,9 @@ type c14Case struct {
 var c14Reasons = []string{"CrashLoopBackOff", "ImagePullBackOff", "ErrImagePull", "CreateContainerConfigError", "StartSlow", "Unknown", ""}
 
 func genC14Inject(r *rand.Rand, tier string, idx int) *World {
+	if idx%16 == 6 {
+		return genC14Paused(r)
+	}
 	w := &World{DefaultValidationMode: pick(r, edsv1.ExtendedDaemonSetSpecStrategyCanaryValidationModeAuto, edsv1.ExtendedDaemonSetSpecStrategyCanaryValidationModeAuto, edsv1.ExtendedDaemonSetSpecStrategyCanaryValidationModeManual), Extra: map[string]string{"body": "c14inject"}}
 	n := 2 + r.IntN(3)
 	for i := 0; i < n; i++ {
@@ -162,5 +166,95 @@ func bodyC14Inject(s *Sim) {
 			s.Stats.NonVacuous["C14.pause-reason-changed"]++
 			s.RunTask(CtrlEDS, key)
 		}
+	}
+}
+
+// ---------------------------------------------------------------------------------------
+// C14, quiescent clause while a canary is held: the whole system runs, the canary is paused before its
+// replica set has taken its nodes over (together with the template change, right after the first
+// reconcile, or before the canary is widened), nothing moves any more, and the status must still count
+// the daemon pods that exist.
+
+func genC14Paused(r *rand.Rand) *World {
+	w := &World{DefaultValidationMode: "manual", Extra: map[string]string{"body": "c14paused"}}
+	n := 3 + r.IntN(3)
+	for i := 0; i < n; i++ {
+		w.Nodes = append(w.Nodes, &NodeDef{Name: nodeName(i)})
+	}
+	e := &EDSDef{NS: "ns1", Name: "foo", Initial: "A", Templates: map[string]*TemplateDef{"A": {Letter: "A"}, "B": {Letter: "B"}}}
+	e.Strategy = StrategyDef{ReconcileFrequency: "10s", SlowStartInterval: "10s", SlowStartIncrease: "5", MaxUnavailable: "2",
+		Canary: &CanaryDef{Replicas: pick(r, "1", "2"), ValidationMode: "manual"}}
+	w.EDS = []*EDSDef{e}
+	w.Extra["pauseWhen"] = pick(r, "with", "after-eds", "later")
+	w.Extra["widen"] = pick(r, "0", "1")
+	w.Cfg = Config{Kubelet: true, MapOrder: pick(r, 0, 1, 2)}
+	return w
+}
+
+func bodyC14Paused(s *Sim) {
+	s.Setup()
+	def := s.W.EDS[0]
+	key := types.NamespacedName{Namespace: def.NS, Name: def.Name}
+	r := subRng(s.Seed, "c14paused")
+	for i := 0; i < 6; i++ {
+		s.Round(r)
+	}
+	s.phase = "body"
+	pause := func() {
+		s.userAnnotate(def.NS, def.Name, edsv1.ExtendedDaemonSetCanaryPausedAnnotationKey, "true")
+	}
+	if s.W.Extra["pauseWhen"] == "with" {
+		pause()
+	}
+	s.userSetTemplate(def.NS, def.Name, "B")
+	s.RunTask(CtrlEDS, key)
+	s.RunTask(CtrlEDS, key)
+	if s.W.Extra["pauseWhen"] == "after-eds" {
+		pause()
+	}
+	for i := 0; i < 4; i++ {
+		s.Round(r)
+	}
+	if s.W.Extra["pauseWhen"] == "later" {
+		pause()
+		s.Round(r)
+	}
+	if s.W.Extra["widen"] == "1" {
+		// the paused canary is widened by one node: that node still runs a pod of the active template
+		if e := s.Store.GetEDS(def.NS, def.Name); e != nil && e.Spec.Strategy.Canary != nil && e.Spec.Strategy.Canary.Replicas != nil {
+			v := intOrStr(fmt.Sprint(e.Spec.Strategy.Canary.Replicas.IntValue() + 1))
+			e.Spec.Strategy.Canary.Replicas = v
+			s.Store.ForceUpdate(e)
+			s.logf("env user.widen-canary")
+		}
+	}
+	quiet := 0
+	for i := 0; i < 14 && quiet < 3; i++ {
+		if s.Round(r) == 0 {
+			quiet++
+		} else {
+			quiet = 0
+		}
+	}
+	e := s.Store.GetEDS(def.NS, def.Name)
+	if e == nil || quiet < 3 || e.Status.Canary == nil || !annTrue(e.Annotations, edsv1.ExtendedDaemonSetCanaryPausedAnnotationKey) {
+		return
+	}
+	exist, ready := 0, 0
+	for _, p := range s.Store.Pods() {
+		if !isDaemonPod(p, def.NS, def.Name) {
+			continue
+		}
+		if terminating(p) {
+			return // not quiescent
+		}
+		exist++
+		if podReady(p) && p.Status.Phase == corev1.PodRunning {
+			ready++
+		}
+	}
+	s.Stats.NonVacuous["C14.quiescent-paused-canary"]++
+	if st := e.Status; int(st.Current) != exist || int(st.Ready) != ready || int(st.Available) != ready {
+		s.Violate("C14", "quiescent", "paused-canary", "%s: canary paused and nothing moves any more (3 rounds without a pod operation): %d daemon pods exist, %d are Ready, but status current=%d ready=%d available=%d (canary nodes %v)", def.Key(), exist, ready, st.Current, st.Ready, st.Available, st.Canary.Nodes)
 	}
 }
